@@ -365,6 +365,10 @@ def EXPECTED_BRANCHES(ctx):
                 for f in ('setreal', 'setimag')]
         exp += ['ipowroute/{}/{}'.format(cls, r) for r in ('generic', 'nppower')]
     exp += ['ipowroute/generic/generic', 'ipowroute/generic/raises']
+    exp += ['stmt/coerced/{}/list'.format(op) for op in ('rsubE', 'addE', 'subE', 'mulE', 'rdivE',
+                                                         'divE', 'iaddE', 'isubE')]
+    exp += ['stmt/coerced/{}/array'.format(op) for op in ('addE', 'subE', 'mulE', 'divE', 'iaddE',
+                                                          'imulE', 'idivE')]
     exp += ['stmt/pelemop/' + op for op in sorted(set(v for v in MODEL_OP.values() if v))]
     for f in ('mul', 'div'):
         for alias in ALIASES:
@@ -695,6 +699,14 @@ def elem_ops():
         ('div_l', 'xl/', lambda x, y, c: x / tolist(y), 'div'),
         ('iadd_l', 'xl', lambda x, y, c: iadd(x, tolist(y), c), 'add'),
         ('isub_l', 'xl', lambda x, y, c: isub(x, tolist(y), c), 'sub'),
+        # ndarray operands on the right: space.element(arr) WRAPS the caller's array
+        ('add_a', 'xl', lambda x, y, c: x + toarr(y), 'add'),
+        ('sub_a', 'xl', lambda x, y, c: x - toarr(y), 'sub'),
+        ('mul_a', 'xl', lambda x, y, c: x * toarr(y), 'mul'),
+        ('div_a', 'xl/', lambda x, y, c: x / toarr(y), 'div'),
+        ('iadd_a', 'xl', lambda x, y, c: iadd(x, toarr(y), c), 'add'),
+        ('imul_a', 'xl', lambda x, y, c: imul(x, toarr(y), c), 'mul'),
+        ('idiv_a', 'xl/', lambda x, y, c: idiv(x, toarr(y), c), 'div'),
         # power-space broadcasting: other is an element of space[0]
         ('b_add', 'xb', lambda x, y, c: x + y, 'add'),
         ('b_radd', 'xb', lambda x, y, c: y + x, 'add'),
@@ -725,6 +737,20 @@ def elem_ops():
         ('one', '0', lambda x, y, c: x.space.one(), 'one'),
     ]
     return ops
+
+
+LAST_ARRAYS = []
+
+
+def toarr(y):
+    """The operand as a plain ndarray (kept, with a snapshot, so that the caller can check it
+    was only read). Product spaces: no single array, use the nested list."""
+    import odl
+    if isinstance(y.space, odl.ProductSpace):
+        return tolist(y)
+    a = np.array(y.asarray(), copy=True)
+    LAST_ARRAYS.append((a, a.copy()))
+    return a
 
 
 def tolist(y):
@@ -874,6 +900,7 @@ def run_elem_case(c):
     xs, ys = x.copy(), y.copy()
     in_place = c['op'].startswith('i') or c['op'].startswith('b_i') or \
         c['op'].startswith('bp_i') or c['op'] in ('assign', 'set_zero')
+    del LAST_ARRAYS[:]
     try:
         if c['op'] == 'sp_lincomb':
             res = space.lincomb(c['c'], x, c['d'], y)
@@ -922,6 +949,11 @@ def run_elem_case(c):
             # (an own part used as the broadcast operand of an in-place operation is part of
             # the output and legitimately changes)
             problems.append('right operand modified')
+    for arr, snap in LAST_ARRAYS:
+        if not np.array_equal(arr, snap):
+            problems.append('the ndarray operand was modified')
+        if res is not None and not in_place and any(_shares(rp, arr) for rp in leaf_parts(res)):
+            problems.append('out-of-place result shares memory with the ndarray operand')
     nontrivial = any(v != (0, 0) for v in exp)
     return spec_line(c['spec'], X, Y, fc, fd), status, R, problems, nontrivial
 
@@ -936,6 +968,8 @@ MODEL_OP = {'add': 'addE', 'sub': 'subE', 'mul': 'mulE', 'div': 'divE', 'iadd': 
             'imul_self': 'imulE', 'idiv_self': 'idivE', 'sp_multiply': None,
             'l_sub': 'rsubE', 'l_add': 'addE', 'sub_l': 'subE', 'l_mul': 'mulE', 'mul_l': 'mulE',
             'l_div': 'rdivE', 'div_l': 'divE', 'iadd_l': 'iaddE', 'isub_l': 'isubE',
+            'add_a': 'addE', 'sub_a': 'subE', 'mul_a': 'mulE', 'div_a': 'divE',
+            'iadd_a': 'iaddE', 'imul_a': 'imulE', 'idiv_a': 'idivE',
             'el_lincomb1': None}
 
 
@@ -1012,6 +1046,9 @@ def stmt_line(c, X, Y, fc):
     mop = MODEL_OP.get(name)
     if mop is None:
         return None
+    if c['okind'] in ('xl', 'xl/', 'x/l'):
+        # array-like operand: the coercion branch (Model/ElemOps.lean::Op.execCoerced)
+        return 'elemopl op={} n={} x={} v={}'.format(mop, len(X), lv(X), lv(Y))
     alias = 1 if c['okind'].startswith('xx') else 0
     cc = fs(fc[0]) if fc[1] == 0 else fs(fc[0]) + ':' + fs(fc[1])
     return 'elemop op={} alias={} c={} n={} x={} y={}'.format(mop, alias, cc, len(X), lv(X),
@@ -1944,6 +1981,9 @@ def run(ctx, deep=False):
                                               else 'external'))
         elif line.startswith('pelemop'):
             ctx.hit('stmt/pelemop/' + MODEL_OP[c['op']])
+        elif line.startswith('elemopl'):
+            ctx.hit('stmt/coerced/{}/{}'.format(MODEL_OP[c['op']],
+                                                'array' if c['op'].endswith('_a') else 'list'))
         else:
             ctx.hit('stmt/' + line.split()[1] if line.startswith('elemop') else 'stmt/ipow')
         if status != 'ok' or not ans.startswith('ok'):
@@ -1973,6 +2013,12 @@ def run(ctx, deep=False):
         if line.startswith('ipow'):
             if parse_cl(f['x']) != R:
                 ctx.disagree(desc, R[:6], f['x'][:200])
+            continue
+        if line.startswith('elemopl'):
+            # the coerced buffer holds the operand's values (YP: the operand afterwards)
+            if parse_cl(f['res']) != R or parse_cl(f['x']) != XP or parse_cl(f['l']) != YP or \
+                    (f['r'] == '0') != (c['op'].startswith('i')):
+                ctx.disagree(desc, {'res': R[:6], 'x': XP[:6], 'l': YP[:6]}, ans[:300])
             continue
         if parse_cl(f['res']) != R or parse_cl(f['x']) != XP or \
                 (c['y'] is not c['x'] and parse_cl(f['y']) != YP):
